@@ -260,6 +260,40 @@ func tour() []*Case {
 		tourStep("toggle", "chain-a", tourCS("tss"), cons("tss")),
 		tourStep("upgrade", "chain-a", tourCS("tss"), cons("tss")),
 	))
+	// a9e74e1: the chain's own name ("teleport" in the application's default genesis) is refused by CreateClient only
+	out = append(out, xcase(
+		tourStep("create", "teleport", tourCS("tm"), cons("tm")),
+		tourStep("create", "teleport", tourCS("tss"), cons("tss")),
+		tourStep("upgrade", "teleport", tourCS("tm"), cons("tm")),
+		tourStep("toggle", "teleport", tourCS("tss"), cons("tss")),
+		tourStep("create", "teleport", CSSpec{Kind: "nil"}, cons("tm")),
+		tourStep("create", "teleport", tourCS("tm"), ConsSpec{Kind: "nil"}),
+		tourStep("create", "Teleport", tourCS("tm"), cons("tm")),
+		tourStep("create", "teleport-1", tourCS("tm"), cons("tm")),
+	))
+	// aa5560b: ETH Initialize / UpgradeState compare the consensus state's root with the header's state root
+	r32 := func(b byte) string { return hex.EncodeToString(bytes.Repeat([]byte{b}, 32)) }
+	for _, rr := range [][2]string{{"", r32(4)}, {r32(4), ""}, {r32(4), r32(4)}, {"", "empty"}, {"empty", ""}, {"empty", "empty"}, {"empty", r32(0)}, {r32(0), "empty"},
+		{"", r32(3)[2:]}, {r32(3)[2:], ""}, {"", "07" + r32(3)}, {"07" + r32(3), ""}, {"07" + r32(3), "08" + r32(3)}, {"00" + r32(3)[2:], r32(3)[2:]}, {"", r32(3) + "00"}} {
+		e1, e2 := tourCS("eth"), tourCS("eth")
+		e1.Hdr.Root, e2.Hdr.Root, e2.Hdr.Height.H = rr[0], rr[0], 300
+		ec := ConsSpec{Kind: "eth", Ts: ts, Root: rr[1]}
+		bad := tourCS("eth")
+		bad.Hdr.Root, bad.Hdr.BloomLen, bad.Hdr.Height.H = rr[0], 257, 0
+		out = append(out, xcase(
+			tourStep("create", "chain-a", tourCS("eth"), cons("eth")),
+			tourStep("create", "chain-b", tourCS("tss"), cons("tss")),
+			tourStep("create", "chain-c", e1, ec),
+			tourStep("upgrade", "chain-a", e2, ec),
+			tourStep("toggle", "chain-b", e1, ec),
+			tourStep("create", "chain-d", bad, ec),
+			tourStep("upgrade", "chain-a", bad, ec),
+		))
+		// the BSC client does not compare roots
+		b1 := tourCS("bsc")
+		b1.Hdr.Root = rr[0]
+		out = append(out, xcase(tourStep("create", "chain-a", b1, ConsSpec{Kind: "bsc", Ts: ts, Root: rr[1]})))
+	}
 	// toggle whose Initialize fails / returns an error
 	for _, f := range []func(c *CSSpec){
 		func(c *CSSpec) { c.Hdr.Seal = "mismatch" }, func(c *CSSpec) { c.Hdr.Seal = "bad" }, func(c *CSSpec) { c.Hdr.Height.H = 201 },
@@ -440,6 +474,21 @@ func tour() []*Case {
 			g.Then = []XStep{tourStep("upgrade", "chain-a", tourCS("tm"), cons("tm")), tourStep("upgrade", "chain-a", tourCS("bsc"), cons("bsc"))}
 		}))
 	}
+	// the native chain name set by the genesis is the one CreateClient refuses; a genesis may list a client under it
+	out = append(out, gx(func(g *GenXSpec) {
+		g.Native = hx("chain-a")
+		g.Clients = []GXClient{{Chain: hx("chain-b"), CS: tourCS("tm")}}
+		g.Then = []XStep{tourStep("create", "chain-a", tourCS("tm"), cons("tm")), tourStep("create", "teleport", tourCS("tm"), cons("tm")),
+			tourStep("upgrade", "chain-a", tourCS("tm"), cons("tm")), tourStep("create", "chain-c", tourCS("tss"), cons("tss"))}
+	}), gx(func(g *GenXSpec) {
+		g.Native = hx("chain-a")
+		g.Clients = []GXClient{{Chain: hx("chain-a"), CS: tourCS("eth")}}
+		g.Consensus = []GXCons{{Chain: hx("chain-a"), States: []GXConsAt{{Height: H{0, 100}, Cons: ConsSpec{Kind: "eth", Ts: ts, Root: r32(9)}}}}}
+		e2 := tourCS("eth")
+		e2.Hdr.Height.H = 300
+		g.Then = []XStep{tourStep("create", "chain-a", tourCS("tm"), cons("tm")), tourStep("upgrade", "chain-a", e2, ConsSpec{Kind: "eth", Ts: ts, Root: r32(9)}),
+			tourStep("upgrade", "chain-a", e2, cons("eth")), tourStep("toggle", "chain-a", tourCS("tss"), cons("tss"))}
+	}))
 	// every mutated client state as a genesis client (the genesis validation calls the same Validate)
 	for _, k := range kindsAll {
 		for _, m := range csMutations(k) {
